@@ -176,6 +176,21 @@ fn run_case(w: &mut World, c: &Value, ctl: &mut Ctl) -> Value {
 		obs = w.obs();
 		el = eligible(&obs, payer);
 	}
+	if class == "part_stale" && ctl.stale_sig.is_none() {
+		// an earlier, honest exchange whose reply signature can be replayed later
+		let name0 = w.new_slate_name();
+		let i0 = w.init_send("w1", &name0, &json!({"amt": 1000, "minconf": 1, "nchange": 1}));
+		let l0 = w.lock("w1", &name0, "S1", 0);
+		let r0 = w.receive("w2", &name0, "", None);
+		ctl.stale_sig = w.pick(&name0, "S2", 0).and_then(|sl| sl.participant_data.get(0).and_then(|p| p.part_sig));
+		let f0 = w.finalize("w1", &name0, "S2", 0, None, false);
+		let m0 = w.mine(None, &[name0.clone()]);
+		steps.push(json!({"warmup": [i0["res"], l0["res"], r0["res"], f0["res"], m0["res"]]}));
+		w.refresh("w1", 1);
+		w.refresh("w2", 1);
+		obs = w.obs();
+		el = eligible(&obs, payer);
+	}
 	if el.len() < nin + 1 {
 		// fund the payer: one more coinbase, matured
 		w.mine(Some("w1"), &[]);
@@ -209,7 +224,9 @@ fn run_case(w: &mut World, c: &Value, ctl: &mut Ctl) -> Value {
 	} else {
 		let base = if nin >= 2 { el[0..nin - 1].iter().map(|x| x.1).sum::<u64>() + 1000 } else { 1000 };
 		let change = if incfee { total - base } else { total - base - fee_change };
-		base + (change % nch)
+		// an invoice whose amount is altered on the way shifts the payer's change by one unit
+		let shift: u64 = if invoice && class == "pre_amt_plus" { 1 } else if invoice && class == "pre_amt_minus" { nch - 1 } else { 0 };
+		base + ((change + nch - shift % nch) % nch)
 	};
 
 	// ---- 2. initiation [+ lock] and the counterparty's step
@@ -392,10 +409,10 @@ fn run_case(w: &mut World, c: &Value, ctl: &mut Ctl) -> Value {
 	let rchg: Vec<Value> = rchg.into_iter().filter(|o| !rn.contains(&s(&o["n"]))).collect();
 	ev["resv"] = json!({"ins": rins, "chg": rchg});
 
+	if ctl.stale_sig.is_none() {
+		ctl.stale_sig = genuine_sig;
+	}
 	if f["res"] == "ok" {
-		if ctl.stale_sig.is_none() {
-			ctl.stale_sig = genuine_sig;
-		}
 		let body = obs["body"][name.as_str()].clone();
 		let val = |n: &Value| -> Value { obs["reg"].get(n.as_str().unwrap_or("")).map(|r| r["v"].clone()).unwrap_or(json!(-1)) };
 		let ins: Vec<Value> = body["ins"].as_array().cloned().unwrap_or_default();
